@@ -160,7 +160,29 @@ func classifyInChild(r *vf.Run, caseID, path string, d c06Data, ctx map[string]a
 		Violations []map[string]any `json:"violations"`
 	}
 	if res.Code != 0 || json.Unmarshal([]byte(res.Stdout), &out) != nil {
-		w["exit_code"], w["signal"], w["stderr"] = res.Code, res.Signal.String(), tail(res.Stderr, 5000)
+		// a crash caused by the file happens again on the same file; a crash of the child for a reason of the machine (no
+		// more threads or memory under heavy load) does not: the classification is repeated, and only a crash that
+		// happens three times out of three is attributed to the file
+		for again := 0; again < 2; again++ {
+			time.Sleep(2 * time.Second)
+			res2 := runChild(r, binPath("vcheck"), []string{"worker", "c06-classify", path, c06SpecFile(r, d)}, childOpts{Timeout: 5 * time.Minute})
+			if res2.TimedOut {
+				break
+			}
+			if res2.Code == 0 && json.Unmarshal([]byte(res2.Stdout), &out) == nil {
+				r.Count("classification_children_that_died_once_for_no_reason_of_the_file", 1)
+				r.Extra("classification_child_transient_death", map[string]any{"case": caseID, "exit_code": res.Code, "stderr_head": head(res.Stderr, 1500)})
+				res = res2
+				break
+			}
+		}
+	}
+	if res.Code != 0 || out.Class == "" {
+		w["exit_code"], w["signal"], w["stderr"], w["stderr_head"] = res.Code, res.Signal.String(), tail(res.Stderr, 5000), head(res.Stderr, 4000)
+		w["crashed_in_three_of_three_attempts"] = true
+		if kd := os.Getenv("VERIF_KEEP_DIR"); kd != "" {
+			_ = ix.CopyFile(path, filepath.Join(kd, "crashing-"+filepath.Base(path)))
+		}
 		w["explanation"] = "opening or querying the post-crash file took the process down"
 		r.Violation(caseID, "open-or-query-crashes-on-post-crash-file", w)
 		return "crash"
@@ -261,6 +283,7 @@ func runC06(r *vf.Run) {
 		"distinct_nontrivial = distinct (engine, writer, dataset, crash point) tuples")
 	r.Assume("a crash is the death of the process with the kernel surviving (no torn pages: bbolt's commit protocol and fsync behaviour are trusted)", "up to ~35 commits per run")
 	c06Snapshots(r)
+	c06FirstWrite(r)
 	c06KillAt(r)
 	c06Strace(r)
 	c06SizeKill(r)
@@ -295,6 +318,49 @@ func c06Datasets(r *vf.Run) []c06Data {
 		ds = append(ds, c06Data{"v4100", 4100, []int{4100, 3}}, c06Data{"v12500", 12500, []int{12500}}, c06Data{"v30500", 30500, []int{30500}}, c06Data{"v2000", 2000, []int{1000, 1000}}, c06Data{"r2000", 2000, []int{3}}, c06Data{"r2001", 2001, []int{1500, 3}})
 	}
 	return ds
+}
+
+// engine 0: the very first write. bbolt creates a database with ONE write of four pages (two meta pages, a freelist
+// page, an empty root) followed by a sync; a SIGKILL can end that write at any page boundary (the kernel checks for fatal
+// signals between pages). The size-triggered engine hits this window only now and then, so the states it can leave are
+// built directly: the first 1..4 pages of a freshly created database. Each is classified in a child process like every
+// other post-crash file.
+func c06FirstWrite(r *vf.Run) {
+	d := c06Datasets(r)[0]
+	csv := gen.CSVWithValues(d.rows, d.vals)
+	dir := filepath.Join(r.Scratch, "first-write")
+	mustMkdir(dir)
+	full := filepath.Join(dir, "full.updog")
+	if err := ix.Build(ix.WriterMemFile, full, csv.Rows()); err != nil {
+		r.Violation("first-write", "build", err.Error())
+		return
+	}
+	fresh := filepath.Join(dir, "fresh.db")
+	if db, err := bbolt.Open(fresh, 0o644, nil); err == nil {
+		db.Close()
+	}
+	b, err := os.ReadFile(fresh)
+	if err != nil || len(b) < 16384 {
+		r.Inconclusive("first-write: cannot read a freshly created database")
+		return
+	}
+	// (a prefix followed by a hole, or a prefix of the FINISHED file, is not a state a kill can leave: the file only grows
+	// after the first write has completed, and the first write is the image of an empty database)
+	for _, cut := range []int{1, 4095, 4096, 8191, 8192, 12288, 16383, 16384} {
+		cid := fmt.Sprintf("first-write/first-%d-bytes", cut)
+		if !r.Want(cid) {
+			continue
+		}
+		p := filepath.Join(dir, vf.Digest(cid)+".updog")
+		_ = os.WriteFile(p, b[:cut], 0o644)
+		r.Eval(1)
+		cls := classifyInChild(r, cid, p, d, map[string]any{"engine": "first-write", "bytes_of_the_first_write_that_arrived": cut})
+		r.Count("class_"+cls, 1)
+		r.Count("first_write_states", 1)
+		r.Distinct(cid)
+		os.Remove(p)
+	}
+	_ = full
 }
 
 // engine 1: hook snapshots in process
@@ -460,6 +526,12 @@ func c06KillAt(r *vf.Run) {
 						bigArg = "1"
 					}
 					pres := runChild(r, binPath("vcheck"), []string{"worker", "c06-path-reuse", reuse, c06SpecFile(r, d), full, binPath("updog.verif"), in, bigArg, fmt.Sprint(n)}, childOpts{Timeout: 5 * time.Minute})
+					for again := 0; again < 2 && !pres.TimedOut && pres.Code != 0; again++ {
+						// the child died: once more from the start (a death caused by the file repeats itself)
+						time.Sleep(2 * time.Second)
+						os.Remove(reuse)
+						pres = runChild(r, binPath("vcheck"), []string{"worker", "c06-path-reuse", reuse, c06SpecFile(r, d), full, binPath("updog.verif"), in, bigArg, fmt.Sprint(n)}, childOpts{Timeout: 5 * time.Minute})
+					}
 					r.Eval(1)
 					ctx := map[string]any{"engine": "cli-sigkill-at-commit, output path opened before by the classifying process", "mode": mode, "dataset": d.id, "killed_at": site}
 					var pout struct {
